@@ -24,6 +24,14 @@ Theorem C18_segmentation_irrelevant :
 Proof. exact segmentation_irrelevant. Qed.
 Print Assumptions C18_segmentation_irrelevant.
 
+(* and what a reader who ignores formatting sees: the text of the rendered paragraph is the text-level rendering
+   (conditionals resolved, then variables replaced, on the plain byte string) of the paragraph's text - the cutting
+   into runs, the formatting and the runs without text have no influence on it *)
+Theorem C18_text_is_text_rendering :
+  forall holds vars rs, utext (units (rendered holds vars rs)) = render_text holds vars (utext (units rs)).
+Proof. intros holds vars rs. rewrite render_paragraph_units. apply render_units_text. Qed.
+Print Assumptions C18_text_is_text_rendering.
+
 (* runs without text (page breaks, pictures, fields) are all kept, in their order *)
 Theorem C18_anchors_kept :
   forall holds vars us, filter is_anchor_u (render_units holds vars us) = filter is_anchor_u us.
